@@ -87,10 +87,12 @@ def rows_of(nested):
     return [(st, se, inst, cls) for st, ser in nested for se, ins in ser for cls, inst in ins]
 
 
-def spec_to_model(spec):
-    return {'id': spec['id'], 'vt': spec['vt'], 'name': '|'.join(spec['name']), 'rel': spec['rel'],
+def spec_to_model(spec, versionless=False):
+    """versionless: names as (value, designator) only - what a name query WITHOUT a coding scheme version is compared with
+    (it matches the code in any version; the model compares names as opaque strings)"""
+    return {'id': spec['id'], 'vt': spec['vt'], 'name': '|'.join(spec['name'][:2] if versionless else spec['name']), 'rel': spec['rel'],
             'ref': list(spec['ref']) if spec['ref'] else None, 'has_seq': spec['has_seq'],
-            'children': [spec_to_model(c) for c in spec['children']]}
+            'children': [spec_to_model(c, versionless) for c in spec['children']]}
 
 
 def evd_to_model(evd):
@@ -115,7 +117,7 @@ def _doc_case(ctx, idx):
     allow_empty_root = r.random() < 0.04
     root, spec = srdocs.content_tree(r, pool, depth=depth, scoord3d=scoord3d, foreign=foreign,
                                      allow_empty_root=allow_empty_root,
-                                     scoord3d_weight=r.choice([1, 1, 2]))
+                                     scoord3d_weight=r.choice([1, 1, 2]), code_rng=ctx.rng('codes', idx))
     root_kind = r.choice(['container'] * 30 + ['related', 'text'])
     if root_kind == 'related':
         # a root item that claims a relationship with a parent
@@ -249,6 +251,77 @@ def _placement_cases(ctx):
     return out
 
 
+def _coded_cases(ctx):
+    """Systematic code forms: every coded name of the document, and below a chain of containers (depth 1..4), directly or below
+    a NUM / CODE item, one CODE item (coded value) and one NUM item (coded unit and qualifier) in ONE of the non-plain
+    CODE_FORMS (scheme version, long code value, URN code value, both, context group attributes); document classes in turn."""
+    import highdicom as hd
+    from gen import srdocs
+    sr = hd.sr
+    out = []
+    idx = 0
+    for depth in (1, 2, 3, 4):
+        for parent in ('container', 'num', 'code'):
+            for form in srdocs.CODE_FORMS[1:]:
+                cr = ctx.rng('coded', idx)
+                pool = srdocs.instance_pool(cr, max_studies=2)
+                ids = srdocs._Ids()
+
+                def mk(base, role, rec, f=form):
+                    c_, stored, f_ = srdocs.coded(cr, base, form=f)
+                    rec.append((role, f_, stored))
+                    return c_, stored
+
+                def named(vt, rel):
+                    rec = []
+                    c_, stored = mk(('121071', 'DCM', 'Finding'), 'name', rec)
+                    nm = (stored.get('CodeValue') or stored.get('LongCodeValue') or stored.get('URNCodeValue'),
+                          stored['CodingSchemeDesignator']) + ((stored['CodingSchemeVersion'],) if 'CodingSchemeVersion' in stored else ())
+                    return c_, {'id': ids.next(), 'vt': vt, 'name': nm, 'rel': rel, 'ref': None, 'has_seq': False, 'children': [],
+                                'codes': rec}
+
+                def under(item, spec_, kids):
+                    item.ContentSequence = sr.ContentSequence([k for k, _ in kids])
+                    spec_['has_seq'] = True
+                    spec_['children'] = [ks for _, ks in kids]
+                nm_, rspec = named('CONTAINER', None)
+                root = sr.ContainerContentItem(name=nm_)
+                rspec['attrs'] = ['ValueType', 'ConceptNameCodeSequence', 'ContinuityOfContent']
+                cur, curspec = root, rspec
+                for _ in range(depth - 1):
+                    nm_, ns = named('CONTAINER', 'CONTAINS')
+                    nxt = sr.ContainerContentItem(name=nm_, relationship_type='CONTAINS')
+                    under(cur, curspec, [(nxt, ns)])
+                    cur, curspec = nxt, ns
+                if parent != 'container':
+                    nm_, ps = named('NUM' if parent == 'num' else 'CODE', 'CONTAINS')
+                    if parent == 'num':
+                        u_, _ = mk(('mm', 'UCUM', 'millimeter'), 'unit', ps['codes'], f='plain')
+                        p_ = sr.NumContentItem(name=nm_, value=1.5, unit=u_, relationship_type='CONTAINS')
+                    else:
+                        v_, _ = mk(('10200004', 'SCT', 'Liver'), 'value', ps['codes'], f='plain')
+                        p_ = sr.CodeContentItem(name=nm_, value=v_, relationship_type='CONTAINS')
+                    under(cur, curspec, [(p_, ps)])
+                    cur, curspec = p_, ps
+                rel = 'CONTAINS' if parent == 'container' else 'HAS PROPERTIES'
+                nm_, cs = named('CODE', rel)
+                v_, _ = mk(('64033007', 'SCT', 'Kidney'), 'value', cs['codes'])
+                code_item = sr.CodeContentItem(name=nm_, value=v_, relationship_type=rel)
+                nm_, nsp = named('NUM', rel)
+                u_, _ = mk(('cm', 'UCUM', 'centimeter'), 'unit', nsp['codes'])
+                q_, _ = mk(('114006', 'DCM', 'Measurement failure'), 'qualifier', nsp['codes'])
+                num_item = sr.NumContentItem(name=nm_, value=-2.25, unit=u_, qualifier=q_, relationship_type=rel)
+                under(cur, curspec, [(code_item, cs), (num_item, nsp)])
+                out.append({'idx': 200000 + idx, 'pool': pool, 'cls': SR_CLASSES[idx % 3], 'root': root, 'spec': rspec,
+                            'refs': [], 'evidence': [p['ds'] for p in pool], 'mode': 'all',
+                            'flags': {'record_evidence': True, 'is_complete': False, 'is_final': False, 'is_verified': False,
+                                      'observer': None, 'organization': None},
+                            'prev': None, 'as_seq': 0, 'depth': depth, 'root_kind': 'container',
+                            'coded': (depth, parent, form)})
+                idx += 1
+    return out
+
+
 def _expected(c):
     """Oracle over construction parameters: reasons the constructor must refuse, and the expected partition."""
     from gen import srdocs
@@ -335,8 +408,10 @@ def _walk_real(item, spec, out, path='0'):
         probs.append(f'{path}: value type {vt} != {spec["vt"]}')
     try:
         nm = item.ConceptNameCodeSequence[0]
-        if (str(nm.CodeValue), str(nm.CodingSchemeDesignator)) != tuple(spec['name']):
-            probs.append(f'{path}: name')
+        got_nm = tuple(str(nm[k].value) for k in ('CodeValue', 'LongCodeValue', 'URNCodeValue') if k in nm) + \
+            (str(nm.CodingSchemeDesignator),) + ((str(nm.CodingSchemeVersion),) if 'CodingSchemeVersion' in nm else ())
+        if got_nm != tuple(spec['name']):
+            probs.append(f'{path}: name {got_nm} != {tuple(spec["name"])}')
     except Exception as e:  # noqa: BLE001
         probs.append(f'{path}: name unreadable {e}')
     rel = item.get('RelationshipType', None)
@@ -361,6 +436,48 @@ def _walk_real(item, spec, out, path='0'):
     return probs
 
 
+_CODE_AT = {'name': lambda it: it.ConceptNameCodeSequence, 'value': lambda it: it.ConceptCodeSequence,
+            'unit': lambda it: it.MeasuredValueSequence[0].MeasurementUnitsCodeSequence,
+            'qualifier': lambda it: it.NumericValueQualifierCodeSequence}
+
+
+def _walk_codes(item, spec, path='0'):
+    """Attribute by attribute: every code sequence item the generator constructed (coded name, CODE value, NUM unit, NUM
+    qualifier; spec['codes'] = the construction parameters) must be stored with exactly those attributes: code value in the
+    attribute it was given in (CodeValue / LongCodeValue / URNCodeValue), designator, meaning, scheme version, context group
+    attributes - nothing lost, nothing added.  Read through pydicom only.  Returns the list of differences."""
+    probs = []
+    for role, form, stored in spec.get('codes', ()):
+        try:
+            seq = _CODE_AT[role](item)
+            got = [{e.keyword: str(e.value) for e in x} for x in seq]
+        except Exception as e:  # noqa: BLE001
+            probs.append(f'{path}: coded {role} ({form}) unreadable: {type(e).__name__}: {e}'[:160])
+            continue
+        if got != [stored]:
+            lost = sorted(set(stored) - set(got[0])) if len(got) == 1 else None
+            probs.append({'item': path, 'value_type': spec['vt'], 'role': role, 'form': form, 'lost': lost, 'stored': got, 'given': stored})
+    kids = list(item.ContentSequence) if 'ContentSequence' in item else []
+    if len(kids) == len(spec['children']):
+        for k, (ch, cs) in enumerate(zip(kids, spec['children'])):
+            probs += _walk_codes(ch, cs, f'{path}.{k}')
+    return probs
+
+
+_ROOT_KW = ('ValueType', 'ConceptNameCodeSequence', 'ContinuityOfContent', 'ContentTemplateSequence', 'ContentSequence',
+            'ObservationDateTime', 'ObservationUID')
+
+
+def _root_part(ds):
+    """the content-tree attributes of a document data set as a data set of their own (pydicom only)"""
+    import pydicom
+    out = pydicom.Dataset()
+    for kw in _ROOT_KW:
+        if kw in ds:
+            out[kw] = ds[kw]
+    return out
+
+
 def _check_doc(ctx, c, reqs, pending):
     import highdicom as hd
     import pydicom
@@ -369,6 +486,10 @@ def _check_doc(ctx, c, reqs, pending):
     case = {'stream': 'doc', 'seed': ctx.seed, 'idx': c['idx'], 'cls': c['cls'], 'mode': c['mode'], 'flags': c['flags'], 'as_seq': c['as_seq']}
     reasons, neutral, current, other = _expected(c)
     before = canon(c['root'])
+    gp = _walk_codes(c['root'], spec)
+    if gp:
+        ctx.fail(case, {'what': 'a content item does not store the code it was constructed with, attribute for attribute',
+                        'differences': gp[:4]}, site='sr.item/codes')
     res = _call(_build, c)
     ok = res[0] == 'ok'
     n_ref, n_oth = len(current), len(other)
@@ -381,6 +502,15 @@ def _check_doc(ctx, c, reqs, pending):
              depth=c['depth'], n_items=min(sum(1 for _ in srdocs.walk(spec)), 40), n_referenced=min(n_ref, 12),
              n_other=min(n_oth, 12), record=c['flags']['record_evidence'], verified=c['flags']['is_verified'],
              studies=len({p['study'] for p in c['pool']}), as_seq=c['as_seq'], root=c['root_kind'])
+    if ok:
+        def forms(sp, d):
+            for role, form, _ in sp.get('codes', ()):
+                if form != 'plain':
+                    ctx.hist('coded_' + role, f'{form}@depth{min(d, 5)}')
+                ctx.hist('code_form', form)
+            for ch in sp['children']:
+                forms(ch, d + 1)
+        forms(spec, 0)
     # ---- model request (L0: ok-vs-error, evidence sequences, get_evidence)
     f = c['flags']
     reqs.append(('buildSR', {'cls': c['cls'], 'tree': spec_to_model(spec), 'evidence': evd_to_model(c['evidence']),
@@ -407,13 +537,16 @@ def _check_doc(ctx, c, reqs, pending):
     # ---- oracle: content unchanged
     if canon(c['root']) != before:
         ctx.fail(case, 'the content tree handed in was modified by the constructor', site='sr.ctor/input-mutated')
+    # every coded name / value / unit / qualifier, attribute by attribute, against the construction parameters
+    for where, tree_ in (('.content', doc.content[0] if len(doc.content) == 1 else None), ('the document data set', doc)):
+        cp = _walk_codes(tree_, spec) if tree_ is not None else []
+        if cp:
+            ctx.fail(case, {'what': f'a code in {where} right after construction is not the code given (attributes of the code '
+                                    'sequence item lost or changed)', 'differences': cp[:4]},
+                     site='sr.content/codes' if where == '.content' else 'sr.dataset/codes')
     if len(doc.content) != 1 or canon(doc.content[0]) != before:
         ctx.fail(case, 'document .content differs from the tree it was given', site='sr.content')
-    root_ds = pydicom.Dataset()
-    for kw in ('ValueType', 'ConceptNameCodeSequence', 'ContinuityOfContent', 'ContentTemplateSequence', 'ContentSequence',
-               'ObservationDateTime', 'ObservationUID'):
-        if kw in doc:
-            root_ds[kw] = doc[kw]
+    root_ds = _root_part(doc)
     if canon(root_ds) != before:
         ctx.fail(case, 'root content attributes of the document data set differ from the tree it was given', site='sr.dataset')
     # the document owns its tree: no item of its data set is an item of the caller's tree, the data set's items ARE the
@@ -504,22 +637,37 @@ def _check_doc(ctx, c, reqs, pending):
         rel = r.choice([None, None, 'CONTAINS', 'SELECTED FROM', 'HAS OBS CONTEXT'])
         nm = r.choice([None, None] + [s['name'] for s in srdocs.descendants(spec)][:6])
         rec = r.random() < 0.7
+        if nm is not None:
+            # the query names the version of the item's name / no version although the item's name has one / a version the
+            # item's name does not have
+            fr_ = ctx.rng('findver', c['idx'] * 3 + q)
+            u = fr_.random()
+            if fr_.random() < 0.5:
+                vt = rel = None                      # the name alone decides
+            if len(nm) > 2 and u < 0.35:
+                nm = tuple(nm[:2])
+            elif u > 0.85:
+                nm = tuple(nm[:2]) + ('1999',)
         name_arg = None
         if nm is not None:
-            name_arg = hd.sr.CodedConcept(value=nm[0], scheme_designator=nm[1], meaning='x')
+            name_arg = hd.sr.CodedConcept(value=nm[0], scheme_designator=nm[1], meaning='x',
+                                          scheme_version=nm[2] if len(nm) > 2 else None)
         fr = _call(hd.sr.utils.find_content_items, doc.content[0], name=name_arg, value_type=vt, relationship_type=rel,
                    recursive=rec)
         impl = ('ok', [ids.get(id(x), -1) for x in fr[1]]) if fr[0] == 'ok' else ('err', fr[1])
         # oracle for the search itself: declarative filter over the spec in document order
         cands = list(srdocs.descendants(spec)) if rec else list(spec['children'])
+        # a name matches when value and designator agree and, if the query names a coding scheme version, the version too
         want = [s['id'] for s in cands if (vt is None or s['vt'] == vt) and (rel is None or s['rel'] == rel)
-                and (nm is None or tuple(s['name']) == tuple(nm))]
+                and (nm is None or (tuple(s['name'][:2]) == tuple(nm[:2]) and (len(nm) == 2 or tuple(s['name'][2:]) == tuple(nm[2:]))))]
         fcase = dict(case, query={'vt': vt, 'rel': rel, 'name': nm, 'recursive': rec})
-        ctx.case(find_vt=vt, find_recursive=rec)
+        ctx.case(find_vt=vt, find_recursive=rec, find_name=('none' if nm is None else 'versioned' if len(nm) > 2 else 'unversioned') +
+                 ('' if nm is None else '/hit' if want else '/miss'))
         if impl != ('ok', want):
             ctx.fail(fcase, {'what': 'find_content_items result is not the matching items in document order', 'got': impl, 'want': want},
                      site='find_content_items')
-        reqs.append(('find', {'tree': spec_to_model(spec), 'vt': vt, 'rel': rel, 'name': '|'.join(nm) if nm else None,
+        reqs.append(('find', {'tree': spec_to_model(spec, versionless=nm is not None and len(nm) == 2), 'vt': vt, 'rel': rel,
+                              'name': '|'.join(nm) if nm else None,
                               'recursive': rec}))
         pending.append((fcase, impl, 'find'))
     # ---- written and re-read
@@ -529,6 +677,16 @@ def _check_doc(ctx, c, reqs, pending):
         ctx.fail(case, f'document cannot be written: {w[2]}', site='sr.write')
         return
     blob = bio.getvalue()
+    # the written bytes, read with pydicom alone (no highdicom parsing in between)
+    written = pydicom.dcmread(io.BytesIO(blob))
+    ctx.case(path='written-bytes')
+    # (the caller's tree was edited above, after construction; `before` is the tree as given)
+    if canon(_root_part(written)) != before:
+        ctx.fail(case, 'the content tree in the written file differs from the tree the document was given', site='sr.write/content')
+    cp = _walk_codes(written, spec)
+    if cp:
+        ctx.fail(case, {'what': 'a code in the written file is not the code given (attributes of the code sequence item lost or '
+                                'changed)', 'differences': cp[:4]}, site='sr.write/codes')
     rd = _call(hd.sr.srread, io.BytesIO(blob))
     ctx.case(path='srread')
     if rd[0] != 'ok':
@@ -542,6 +700,11 @@ def _check_doc(ctx, c, reqs, pending):
     probs = _walk_real(doc2.content[0], spec, {})
     if probs:
         ctx.fail(case, {'what': 'parsed .content does not have the constructed structure', 'problems': probs[:5]}, site='srread/content')
+    for where, tree_ in (('srread(...).content', doc2.content[0] if len(doc2.content) == 1 else None), ('the data set srread returns', doc2)):
+        cp = _walk_codes(tree_, spec) if tree_ is not None else []
+        if cp:
+            ctx.fail(case, {'what': f'a code in {where} is not the code given (attributes of the code sequence item lost or changed)',
+                            'differences': cp[:4]}, site='srread/codes')
     # attribute level: what the parsed root item carries vs what the given root item carried (model: parseRoot . writeRoot)
     ROOT_KW = ('ValueType', 'ConceptNameCodeSequence', 'ContinuityOfContent', 'ContentSequence', 'ContentTemplateSequence',
                'ObservationDateTime', 'ObservationUID')
@@ -570,6 +733,10 @@ def _check_doc(ctx, c, reqs, pending):
         d3 = fd[1]
         if canon(d3.content[0]) != before:
             ctx.fail(case, 'from_dataset(copy=True).content differs from the tree', site='from_dataset/content')
+        cp = _walk_codes(d3.content[0], spec) + _walk_codes(d3, spec)
+        if cp:
+            ctx.fail(case, {'what': 'a code in from_dataset(copy=True) (.content / data set) is not the code given', 'differences': cp[:4]},
+                     site='from_dataset/codes')
         if canon(raw) != raw_before or [type(x).__name__ for x in raw.ContentSequence] != types_before:
             ctx.fail(case, {'what': 'from_dataset(copy=True) altered the data set it was given (content items converted in place)',
                             'types_before': types_before[:4], 'types_after': [type(x).__name__ for x in raw.ContentSequence][:4]},
@@ -1046,6 +1213,12 @@ def run(ctx):
         ctx.hist('placement', '/'.join(map(str, c['placement'])) + ('' if c['cls'] == 'Comprehensive3DSR' else '*'))
     ctx.exhaustive.append('placements: {reference without evidence, COMPOSITE with evidence, SCOORD3D} x depth 1..4 x parent '
                           '{container, SCOORD, NUM} x 3 document classes')
+    for c in _coded_cases(ctx):
+        _check_doc(ctx, c, reqs, pending)
+        ctx.hist('coded_placement', '/'.join(map(str, c['coded'])))
+    ctx.exhaustive.append('code forms: {scheme version, long code value, long + version, URN code value, URN + version, context group '
+                          'attributes} on every coded name, on a CODE value and on a NUM unit and qualifier x depth 1..4 x parent '
+                          '{container, NUM, CODE}')
     for idx in range(ctx.n(700, 6000)):
         _check_doc(ctx, _doc_case(ctx, idx), reqs, pending)
     for idx in range(ctx.n(300, 2500)):
@@ -1135,7 +1308,11 @@ def _real_segmentations(ctx):
 
 def _run_one(ctx, case, reqs, pending):
     s = case.get('stream')
-    if s == 'doc' and case['idx'] >= 100000:
+    if s == 'doc' and case['idx'] >= 200000:
+        for c in _coded_cases(ctx):
+            if c['idx'] == case['idx']:
+                _check_doc(ctx, c, reqs, pending)
+    elif s == 'doc' and case['idx'] >= 100000:
         for c in _placement_cases(ctx):
             if c['idx'] == case['idx']:
                 _check_doc(ctx, c, reqs, pending)
